@@ -22,8 +22,25 @@ use std::time::Duration;
 #[behaviour(prelude = "libp2p_swarm::derive_prelude")]
 pub struct Composite {
     pub p1: Probe,
-    pub p2: Probe,
-    pub p3: Probe,
+    /// the second field sits behind libp2p-swarm's `Toggle` combinator (always enabled here)
+    pub p2: libp2p_swarm::behaviour::toggle::Toggle<Probe>,
+    /// the third behind `Either` (side drawn per node)
+    pub p3: either::Either<Probe, Probe>,
+}
+
+impl Composite {
+    pub fn fields(&self) -> [&Probe; 3] {
+        let p3 = match &self.p3 {
+            either::Either::Left(p) | either::Either::Right(p) => p,
+        };
+        [&self.p1, self.p2.as_ref().expect("toggle enabled"), p3]
+    }
+    pub fn fields_mut(&mut self) -> [&mut Probe; 3] {
+        let p3 = match &mut self.p3 {
+            either::Either::Left(p) | either::Either::Right(p) => p,
+        };
+        [&mut self.p1, self.p2.as_mut().expect("toggle enabled"), p3]
+    }
 }
 
 /// Abstracted SwarmEvent (cloneable, without behaviour payloads).
@@ -340,7 +357,8 @@ where
 pub fn probe_composite(cfgs: [ProbeCfg; 3]) -> impl FnOnce(PeerId, Log) -> Composite {
     move |_peer, log| {
         let [a, b, c] = cfgs;
-        Composite { p1: Probe::new(1, log.clone(), a), p2: Probe::new(2, log.clone(), b), p3: Probe::new(3, log, c) }
+        let p3 = Probe::new(3, log.clone(), c);
+        Composite { p1: Probe::new(1, log.clone(), a), p2: Some(Probe::new(2, log, b)).into(), p3: if choose(2) == 0 { either::Either::Left(p3) } else { either::Either::Right(p3) } }
     }
 }
 
